@@ -1221,20 +1221,26 @@ class SmtLibParser(object):
         commands in SmtLib
         """
         symbols = self.env.formula_manager.symbols
-        self.cache.update(symbols)
-        tokens = Tokenizer(script, interactive=self.interactive)
-        res = []
-        self.consume_opening(tokens, "<main>")
-        current = tokens.consume()
-        while current != ")":
-            if current != "(":
-                raise PysmtSyntaxError("'(' expected", tokens.pos_info)
-            vname = self.get_expression(tokens)
-            expr = self.get_expression(tokens)
-            self.consume_closing(tokens, current)
-            res.append((vname, expr))
+        self.cache.checkpoint()
+        try:
+            self.cache.update(symbols)
+            tokens = Tokenizer(script, interactive=self.interactive)
+            res = []
+            self.consume_opening(tokens, "<main>")
             current = tokens.consume()
-        self.cache.unbind_all(symbols)
+            while current != ")":
+                if current != "(":
+                    raise PysmtSyntaxError("'(' expected", tokens.pos_info)
+                vname = self.get_expression(tokens)
+                expr = self.get_expression(tokens)
+                self.consume_closing(tokens, current)
+                res.append((vname, expr))
+                current = tokens.consume()
+            self.cache.unbind_all(symbols)
+        except Exception:
+            # A list that cannot be read leaves no binding behind
+            self.cache.rollback()
+            raise
         return res
 
     def get_command(self, tokens: Tokenizer) -> Iterator[SmtLibCommand]:
